@@ -5,7 +5,7 @@
    modules) meeting the explicit hypotheses [wf_ctx] (BinRoundtrip.v), decidable by [wf_ctx_b]. *)
 From Coq Require Import List ZArith NArith.
 From MirV Require Import Base.W64 C11.Ast C11.BinIO C11.BinIOProofs C11.BinGrammarProofs C11.BinRoundtrip C11.BinWfDec
-  C11.BinExamples C10.TextOut C10.TextProofs.
+  C11.BinExamples C11.TempNames C10.TextOut C10.TextProofs.
 Import ListNotations.
 Local Open Scope Z_scope.
 
@@ -55,3 +55,17 @@ Print Assumptions bin_write_function.
 Theorem bin_roundtrip_nonvacuous : wf_ctx ex_ctx /\ map norm_module ex_ctx <> ex_ctx.
 Proof. exact bin_roundtrip_nonvacuous_lemma. Qed.
 Print Assumptions bin_roundtrip_nonvacuous.
+
+(* Temporary-name counters restored from reserved names (process_reserved_name in to_reg / read_name):
+   after MIR_read_with_func the counter module->last_temp_item_num ([bin_item_counter], a function of
+   the names the reader passes to read_name; compared with the implementation on every generated
+   module) is at least the number k of every item named ".lc<k>" in the module, hence the next name
+   _MIR_get_temp_item_name generates is not the name of an item (no "Repeated item declaration" when
+   the module read back is loaded and simplification creates data for a float/string immediate); the
+   counter is the same for the module written and the normalised module the reader returns. *)
+Theorem bin_temp_counter_fresh : forall m it, In it (mod_items m) ->
+  (forall k, 0 <= k < 2 ^ 32 -> item_name it = Some (temp_item_name k) -> k <= bin_item_counter m)
+  /\ (bin_item_counter m + 1 < 2 ^ 32 -> item_name it <> Some (temp_item_name (bin_item_counter m + 1)))
+  /\ bin_item_counter (norm_module m) = bin_item_counter m.
+Proof. exact bin_temp_counter_lemma. Qed.
+Print Assumptions bin_temp_counter_fresh.
